@@ -1,6 +1,7 @@
 package main
 
 import (
+	"os"
 	"fmt"
 	"go/ast"
 	"go/parser"
@@ -48,6 +49,9 @@ type storeRec struct {
 
 // VC accumulates the verification condition of one top-level function.
 type VC struct {
+	nameWraps bool
+	binderTyping bool
+	binderFacts [][]string
 	eng       *Engine
 	fn        *ssa.Function
 	lines     []string
@@ -88,7 +92,7 @@ type VC struct {
 }
 
 func NewVC(eng *Engine, fn *ssa.Function) *VC {
-	return &VC{eng: eng, fn: fn, heapSorts: map[string]string{}, declared: map[string]bool{}, notes: map[string]bool{},
+	return &VC{nameWraps: os.Getenv("GCV_NAMEWRAPS") != "0", binderTyping: os.Getenv("GCV_BINDERTYPING") != "0", eng: eng, fn: fn, heapSorts: map[string]string{}, declared: map[string]bool{}, notes: map[string]bool{},
 		strLits: map[string]string{}, typeTags: map[string]int{}, freshRefs: map[string]bool{}, specFoot: map[string][]string{},
 		specDecl: map[string]bool{}, recSpec: map[string]bool{}, safetyCount: map[string]int{}, ufDecl: map[string]bool{}, unfolded: map[string]bool{}}
 }
@@ -98,6 +102,36 @@ func (vc *VC) emit(s string) {
 }
 
 func (vc *VC) note(s string) { vc.notes[s] = true }
+
+// Typing facts of heap reads under a binder (type ranges, slice well-formedness, references below the allocation
+// pointer) cannot be asserted globally because they mention the bound variable; they are collected per binder and
+// attached to the quantifier body as a guard (forall: facts => body; exists: facts and body). They hold in every
+// well-typed state, so the guard changes the meaning of no clause.
+func (vc *VC) enterBinder() {
+	vc.inBinder++
+	vc.binderFacts = append(vc.binderFacts, nil)
+}
+
+func (vc *VC) exitBinder() []string {
+	vc.inBinder--
+	n := len(vc.binderFacts)
+	fs := vc.binderFacts[n-1]
+	vc.binderFacts = vc.binderFacts[:n-1]
+	return fs
+}
+
+func (vc *VC) binderFact(f string) {
+	if !vc.binderTyping || len(vc.binderFacts) == 0 {
+		return
+	}
+	n := len(vc.binderFacts)
+	for _, g := range vc.binderFacts[n-1] {
+		if g == f {
+			return
+		}
+	}
+	vc.binderFacts[n-1] = append(vc.binderFacts[n-1], f)
+}
 
 func (vc *VC) freshName(prefix string) string {
 	vc.n++
@@ -402,6 +436,11 @@ func (vc *VC) load(st *State, p Ptr, t types.Type) Val {
 	f := and(facts...)
 	if f != "true" && vc.inBinder == 0 {
 		vc.assert(f)
+	} else if f != "true" {
+		// under a binder only the integer type ranges are kept (state-independent, so hypothesis and goal keep the same shape)
+		if bt, ok := under(t).(*types.Basic); ok && bt.Info()&types.IsInteger != 0 {
+			vc.binderFact(vc.wfVal(t, v))
+		}
 	}
 	if sv, ok := v.(*SliceV); ok && vc.inBinder == 0 {
 		vc.lenTerms = append(vc.lenTerms, sv.Cap)
@@ -629,6 +668,14 @@ func (vc *VC) arith(op token.Token, a, b string, t types.Type, hint *orHint) str
 			return raw
 		}
 		r := vc.wrapArith(raw, t, one)
+		if r != raw && vc.inBinder == 0 && vc.nameWraps {
+			// a wrapped result gets a name of its own (a constant with a defining equation) instead of a macro: the
+			// if-then-else inside the wrap function would otherwise be lifted out of index sums, and quantifier
+			// patterns over s[off+i] would no longer match the term
+			n := vc.fresh("w", "Int")
+			vc.assert(eq(n, r))
+			return n
+		}
 		return r
 	}
 	switch op {
